@@ -163,7 +163,8 @@ fn scenario(w: Work) {
         for k in 0..2 {
             let id = format!("x{k}");
             if let Some((s, _, _)) = any_peek(world.front.any(), Ty::LA, &id) {
-                let hot = world.model.hot;
+                // a get_or_insert that won the race stored a value that is never reloaded
+                let hot = world.model.hot && !s.starts_with("L(ins|");
                 world.model.cache.insert((Ty::LA, id.clone()), crate::model::MEntry { show: s, reload: 0, dynamic: hot });
                 if hot && world.model.tree.files.contains_key(&fkey(&id, "a")) {
                     // a load registered the key with the reloader
